@@ -781,10 +781,18 @@ func init() {
 					jobs = append(jobs, j)
 				}
 			}
+			// the line is accepted between the recording and the call of the macro
+			for _, style := range []string{"emacs", "vi"} {
+				j := mkJob(".ZZ_C18_Session", ".ZZSetup_TwoShellsWrapped", "style", style, "k", "1", "n", "2", "calls", "2", "alpha", "")
+				j.Stubs = paintStubs
+				j.Reach = []string{"both-ran"}
+				jobs = append(jobs, j)
+			}
 			return jobs
 		},
 		IgnoreKinds: []string{"panic", "hang", "spin", "deadlock"},
 		Assumptions: []string{
+			"session jobs with calls=2: Enter accepts the line after the recording (shell A) / after the first K (shell B); the macro call / the second K happen in a second Readline call on the same shell (vi: after ESC), whose outcomes are compared",
 			"recorded keys are k symbolic ASCII bytes (0x00-0x7F: printable, control, ESC, quotes, backslash); they are recorded through core.MatchedKeys + macro.RecordKeys exactly as the main loop does once per resolved key, stored by StopRecord and replayed by RunLastMacro (emacs style) or RunMacro('a') (vi style); the replayed keys are read back with core.PopKey",
 			"non-ASCII keys are outside this check (C02 records that non-ASCII input is dropped before it reaches a command)",
 			"session jobs (ZZ_C18_Session): two shells; the first n characters of 'ab c.d' are typed (vi: in insert mode, then ESC), then shell A gets C-x ( K C-x ) C-x e (vi: q a K q @ a) and shell B gets K K, every key in a read of its own; K = k symbolic ASCII bytes; compared: returned line and error, or buffer, cursor, main and local keymap at the wait after the last key",
